@@ -505,7 +505,7 @@ impl Check for NftEnumerable {
             let (kind, got) = match s {
                 Step::Advance { n } => {
                     w.advance(*n);
-                    st.ledgers += *n as u64;
+                    st.ledgers += *n as u64; st.hit("clock.advance"); if *n > 100_000 { st.hit("clock.jump"); }
                     ("advance", true)
                 }
                 Step::BatchMint { to, amount, signed } => {
@@ -559,6 +559,16 @@ impl Check for NftEnumerable {
                     ("approve_for_all", c.call("approve_for_all", (a(*owner), a(*operator), l).into_val(e)))
                 }
             };
+            match s {
+                Step::Transfer { from: p, signer, .. } | Step::Burn { from: p, signer, .. } | Step::TransferFrom { spender: p, signer, .. } | Step::BurnFrom { spender: p, signer, .. } | Step::Approve { approver: p, signer, .. } | Step::ApproveAll { owner: p, signer, .. } => {
+                    if signer.is_none() {
+                        st.hit("fault.auth_missing");
+                    } else if *signer != Some(*p) {
+                        st.hit("fault.auth_foreign");
+                    }
+                }
+                _ => {}
+            }
             let exp = m.apply(s);
             if kind != "advance" {
                 st.tx(kind, got);
